@@ -43,7 +43,7 @@ def ind(lines, k=1):
 # ----------------------------------------------------------------------------
 
 CONSTRUCTS = ['if', 'ifelse', 'orelse', 'while', 'for', 'forxs', 'tryfin',
-              'tryexc', 'handler', 'tryexcfin', 'handlerfin', 'tryelse', 'with', 'def']
+              'tryexc', 'handler', 'tryexcfin', 'handlerfin', 'tryelse', 'trybodyelse', 'with', 'def']
 LEAVES = ['assign', 'break', 'continue', 'return', 'raise']
 LOOPS = ('while', 'for', 'forxs')
 
@@ -163,6 +163,12 @@ def build_skeleton(chain, leaf, variant=0, pure=False, chk=False):
                              [sk.tr('a', 7)]) +
               ['except UErr:'] + ind([sk.tr('c', 8)]) +
               ['else:'] + ind(inner + [sk.tr('c', 10)]) + [sk.tr('a', 9)])
+    if c == 'trybodyelse':
+      # the guarded jump sits in the BODY of a try that has an else clause (which must not
+      # run when the body is left by the jump)
+      inner = wrap(i + 1, lv, indef)
+      return (['try:'] + ind(inner + [sk.tr('a', 7)]) + ['except UErr:'] + ind([sk.tr('c', 8)]) +
+              ['else:'] + ind([sk.tr('c', 10)]) + [sk.tr('a', 9)])
     if c == 'handlerfin':
       # the guarded jump sits in an except body of a try that also has a finally
       inner = wrap(i + 1, lv, indef)
@@ -240,6 +246,10 @@ ALL_FEATURES = frozenset([
     'try', 'with', 'def', 'lambda', 'global', 'boolop', 'ifexp', 'compr',
     'helper', 'tuple', 'attr', 'subscript', 'listops', 'raise', 'method',
     'augassign', 'chaincmp', 'builtins', 'undef', 'del', 'partial',
+    # statement kinds / operators the first grammars did not produce (audit of AST node kinds):
+    'kinds2',   # annotated / chained / starred / nested-tuple assignment, pass, import, assert,
+                # multi-item with, class statements, walrus in an if test
+    'ops2',     # % // ~ is / is not / in / not in, slices, star-args, set / dict / generator comprehensions
 ])
 # Side-effect free and total: what a functional (tracing) backend may run
 # speculatively (both branches, loop body once out of band).
@@ -293,8 +303,37 @@ class RandomGen(object):
       return self.r.choice(['x', 'n'])
     return str(self.r.randint(0, 4))
 
+  def expr2(self, ctx, d):
+    """Operators and expression kinds of feature 'ops2' (all total on ints)."""
+    self.tags.add('ops2')
+    k = self.r.randint(0, 8)
+    e = self.expr(ctx, d + 1)
+    if k == 0:
+      return '(%s %% %d)' % (e, self.r.randint(2, 3))
+    if k == 1:
+      return '(%s // %d)' % (e, self.r.randint(2, 3))
+    if k == 2:
+      return '(~%s)' % self.atom(ctx)
+    if k == 3:
+      return 'len(xs[%s:])' % self.r.choice(['1', 'n', '-1', 'n - 1'])
+    if k == 4:
+      return 'sum(xs[:%s] + [%s])' % (self.r.choice(['1', 'n']), e)
+    if k == 5 and self.has('helper'):
+      self.need_helper = True
+      if self.r.random() < 0.5:
+        return 'helper(*[%s, %s])' % (e, self.atom(ctx))
+      return "helper(%s, **{'q': %s})" % (e, self.atom(ctx))
+    q = self.fresh('q')
+    if k == 6:
+      return 'sum(%s for %s in xs if %s > x)' % (self.T(q), q, q)
+    if k == 7:
+      return 'len({%s %% 2 for %s in xs})' % (q, q)
+    return 'sum({%s: %s for %s in xs}.values())' % (q, e if self.r.random() < 0.5 else q, q)
+
   def expr(self, ctx, d=0):
     r = self.r.random()
+    if d < 2 and self.has('ops2') and self.r.random() < 0.1:
+      return self.expr2(ctx, d)
     if d >= 2 or r < 0.3:
       a = self.atom(ctx)
       return self.T(a) if self.r.random() < 0.4 else a
@@ -349,6 +388,11 @@ class RandomGen(object):
     if d < 2 and r < 0.4 and (self.has('boolop') or self.has('boolop_pure')):
       self.tags.add('boolop')
       return '(not %s)' % self.cond(ctx, d + 1)
+    if self.has('ops2') and self.r.random() < 0.1:
+      self.tags.add('ops2')
+      a = self.r.choice(ctx.ints or ['x'])
+      return self.r.choice(['%s in xs', '%s not in xs', '%s in (1, x)', '%s not in [0, n]', '(%s is None)',
+                            '(%s is not None)', '(xs is not None and %s == 0)']) % a
     if r < 0.48:
       return 'b'
     if r < 0.56 and ctx.loopvars:
@@ -410,9 +454,56 @@ class RandomGen(object):
       return ['%s = functools.partial(helper, %s)(%s)' % (v, self.atom(ctx), self.atom(ctx))]
     return ['%s = %s' % (v, self.expr(ctx))]
 
+  def stmt2(self, ctx):
+    """Statement kinds of feature 'kinds2'."""
+    self.tags.add('kinds2')
+    k = self.r.randint(0, 10)
+    v = self.r.choice(ctx.wr)
+    if k == 0 and not ctx.indef:      # (an annotated name cannot be declared nonlocal)
+      return ['%s: int = %s' % (v, self.expr(ctx, 1))]
+    if k == 1:
+      u = self.fresh('u')
+      return ['%s: int' % u, 'pass']
+    if k == 2 and len(ctx.wr) >= 2:
+      u = self.r.choice([w for w in ctx.wr if w != v])
+      return ['%s = %s = %s' % (v, u, self.expr(ctx, 1))]
+    if k == 3:
+      rest = self.fresh('rest')
+      return ['%s, *%s = [%s, %s, %s]' % (v, rest, self.expr(ctx, 1), self.atom(ctx), self.atom(ctx)),
+              '%s = %s + len(%s)' % (v, v, rest)]
+    if k == 4 and len(ctx.wr) >= 2:
+      u = self.r.choice([w for w in ctx.wr if w != v])
+      w = self.fresh('w')
+      return ['(%s, %s), %s = (%s, %s), %s' % (v, w, u, self.expr(ctx, 1), self.atom(ctx), self.expr(ctx, 1)),
+              '%s = %s + %s' % (u, u, w)]
+    if k == 5:
+      m = self.fresh('op')
+      form = self.r.choice(['import operator as %s', 'import operator as %s', 'from operator import add as %s'])
+      if form.startswith('from'):
+        return [form % m, '%s = %s(%s, %s)' % (v, m, self.expr(ctx, 1), self.atom(ctx))]
+      return [form % m, '%s = %s.add(%s, %s)' % (v, m, self.expr(ctx, 1), self.atom(ctx))]
+    if k == 6 and not self.chk:     # (assert stays native: it would truth-test an opaque value)
+      return ['assert %s == %s, %s' % (v, v, self.T("'unreachable'") if self.tracer else "'unreachable'")]
+    if k == 7 and self.has('with'):
+      self.tags.add('with')
+      p = self.fresh('p')
+      return (['with CM(%d) as %s, CM(%s + 1):' % (self.tid(), p, p)] +
+              ind(['%s = %s + %s' % (v, v, p)] + self.block(ctx.sub(ints=ctx.ints + [p]))))
+    if k == 8 and not ctx.indef:
+      cn = self.fresh('K')
+      return (['class %s(object):' % cn] +
+              ind(['val = %s' % self.expr(ctx, 1), 'def get(self, p):', '  return p + self.val']) +
+              ['%s = %s().get(%s) - %s.val' % (v, cn, self.atom(ctx), cn)])
+    if k == 9 and self.has('if'):
+      w = self.fresh('w')
+      return ['if (%s := %s) > %s:' % (w, self.expr(ctx, 1), self.atom(ctx))] + ind(['%s = %s' % (v, w)])
+    return ['pass']
+
   def stmt(self, ctx):
     r = self.r.random()
     deep = ctx.depth >= self.max_depth
+    if self.has('kinds2') and self.r.random() < 0.12:
+      return self.stmt2(ctx)
     if deep or r < 0.34:
       return self.assign(ctx)
     if r < 0.5 and self.has('if'):
